@@ -16,6 +16,51 @@ PROPS = {
     },
 }
 
+PROPS["C08"] = {
+    "suites": [{"name": "match", "quick": 250, "thorough": 6000}],
+    "required_theorems": ["C08_alert_ge_threshold", "C08_alert_veto", "C08_conf_range", "C08_alerts_sorted",
+                          "C08_threshold_antitone", "C08_exact_in_full_json"],
+    "level_text": "Kernel-checked theorems over exact rationals with an explicit NaN: every alert of the shared alert pipeline has a real confidence >= threshold, in [0,1], all required calls present (veto), alerts sorted, raising the threshold only removes alerts, JSON exact ⊆ full under the property's scoping (Pebble exact ⊆ full is C06_scanExact_sound + C06_scanFull_eq). The model is tied to MatchSignature / jsondb / pebbledb scans by a differential on generated topologies and signature sets, and the same clauses are evaluated as oracles on the real alerts of both backends.",
+    "level_note": "Trusted: Lean kernel; float64 vs exact rational arithmetic (tied by |Δ|<=2^-40 comparison, decisions within 1e-9 of a threshold skipped and counted); strings.ToLower modelled on ASCII; the harness.",
+    "trusted_base": ["IEEE-754 float64 rounding is not modelled: theorems are over Rat, the differential bounds the gap",
+                     "strings.Contains / ToLower / Trim modelled on List Char (ASCII case mapping)"],
+    "assumptions": ["signature tolerances >= 0, entropies on a 1/64 grid in the differential"],
+}
+PROPS["C05"] = {
+    "suites": [{"name": "match", "quick": 250, "thorough": 6000}],
+    "required_theorems": ["C05_self_match", "C05_found_in_alerts", "C05_found_exact_json"],
+    "level_text": "Kernel-checked: MatchSignature(t, IndexFunction(t)) has confidence exactly 1 for every topology, hash value and default tolerance, hence the indexed signature is reported by the alert pipeline of either backend at every threshold <= 1 and by JSON exact mode. Tie: IndexFunction, GenerateTopologyHash (model SHA-256), GenerateFuzzyHash, MatchSignature differential; self-match evaluated on the real code for every generated topology.",
+    "level_note": "PARTIAL: the SSA-extraction half (topology of a renamed/reformatted copy equals the original's) is a fact about go/ssa + ExtractTopology and is validated by differential runs on generated Go sources, not proved. Trusted: Lean kernel, SHA-256 model used only for equality, harness.",
+    "partial": "name-independence of ExtractTopology is validated, not proved",
+    "trusted_base": ["go/packages + go/ssa construction and topology.ExtractTopology are exercised, not modelled"],
+}
+PROPS["C19"] = {
+    "suites": [{"name": "sim", "quick": 1500, "thorough": 40000}],
+    "required_theorems": ["C19_sim_symm", "C19_sim_range", "C19_sim_self", "C19_sim_eq_one_of_eq_features",
+                          "C19_mapSim_symm", "C19_typeListSim_symm"],
+    "level_text": "Kernel-checked over exact rationals: TopologySimilarity is symmetric, lies in [0,1] and is exactly 1 whenever the name-free features agree (so for a renamed copy); the model is tied to topology.TopologySimilarity by a differential on generated topology pairs in both argument orders, with the same three clauses checked on the real floats.",
+    "level_note": "Trusted: Lean kernel; float64 vs Rat (|Δ|<=2^-40); Go map iteration modelled as duplicate-free association lists. The rename-pairing clauses (one-to-one, >= threshold, rename reported) are checked by the diff-report suites of C09.",
+    "trusted_base": ["frequency maps are modelled as duplicate-free association lists (hypothesis NodupKeys in the theorems)"],
+}
+PROPS["C20"] = {
+    "unclaimed": True,
+    "suites": [{"name": "pathguard"}],
+    "required_theorems": [],
+    "level_text": "Theorems about the guard model over an abstract file system with symlinks (decision = component-wise containment of the resolved location; prefix-retrying EvalSymlinks agrees with one physical walk; string vs component prefix). Tie: every path spelling of the quantifier (404 cases: 6 protected dirs x spellings x ro/rw, symlink trees under a temp dir) is run through the real NewPebbleScanner in guard-only mode (hook H2, nothing is opened) and compared with an independent Lstat/Readlink walk and with the Lean guard fed the same file-system description.",
+    "level_note": "Trusted: Lean kernel; the kernel's path resolution as re-implemented by the harness oracle; filepath.EvalSymlinks modelled as `evalSym`. Dangling symlinks are outside the agreement theorem.",
+    "trusted_base": ["filepath.EvalSymlinks / os.Getwd behaviour as modelled by evalSym/absComps", "hook H2 (guard-only probe) placed directly after the sanitisation block"],
+}
+PROPS["C06"] = {
+    "unclaimed": True,
+    "suites": [{"name": "store", "quick": 60, "thorough": 1500, "timeout": 3000}],
+    "required_theorems": [],
+    "level_text": "Refinement proof: the Pebble-with-indexes model refines the spec ID -> Signature; invariant preserved by every well-formed operation for every finite history; each lookup equals brute force over the surviving records. Tie: random histories on a real on-disk Pebble with all lookups after every step, compared with the harness's own surviving-signature map (oracle) and with the Lean model.",
+    "level_note": "Trusted: Lean kernel; Pebble's batch atomicity and iterator order (modelled as a sorted association list); gob/JSON record encoding (identity in the model, round trip covered by the differential); `%08.4f` modelled as fixed-width round-half-even.",
+    "trusted_base": ["Pebble batch atomicity, byte-lexicographic iteration, snapshots", "encoding/gob round trip of detection.Signature"],
+    "assumptions": ["topology/fuzzy hashes contain no ':' (the product's own hash alphabets)", "IDs non-empty"],
+}
+
 _PENDING = "check not built yet in this round (planned: Lean model + theorems + differential, see DESIGN.md §5)"
-NOT_APPLICABLE = {p: _PENDING for p in ["C%02d" % i for i in range(1, 21)] if p not in PROPS}
+# entries with "unclaimed": True are runnable (./check Cxx) but not yet claimed in MANIFEST.json
+NOT_APPLICABLE = {p: _PENDING for p in ["C%02d" % i for i in range(1, 21)] if p not in PROPS or PROPS[p].get("unclaimed")}
 HOOK_COMMITS = []
